@@ -10,7 +10,7 @@
 //! then - or never - diagnostics are generated again): code actions always speak about the CURRENT text.
 use harper_core::linting::{Lint, LintGroup, Linter, Suggestion};
 use harper_core::parsers::PlainEnglish;
-use harper_core::{Dialect, Document, FstDictionary, Lrc, MergedDictionary, Span};
+use harper_core::{Dialect, Document, FstDictionary, IgnoredLints, Lrc, MergedDictionary, Span, TokenKind};
 use hv::common::*;
 use hv::{frontends, gen};
 use lsx::config::{CodeActionConfig, DiagnosticSeverity};
@@ -19,7 +19,11 @@ use lsx::document_state::DocumentState;
 use lsx::pos_conv::{range_to_span, span_to_range};
 use lsx::tower_lsp::lsp_types::{CodeActionOrCommand, Position, Range, TextEdit, Url};
 use serde_json::{json, Value};
-use std::sync::Arc;
+use std::sync::{Arc, Mutex};
+
+#[path = "../lsclient.rs"]
+mod lsclient;
+use lsclient::{HandlerFut, Session};
 
 // ------------------------------------------------------------------------------------------------
 // The reference LSP client.  A document is a sequence of UTF-16 code units; lines end at "\r\n", "\n"
@@ -734,13 +738,646 @@ fn next_text(r: &mut Rng, fe: &str, cur: &str) -> String {
     }
 }
 
+
+// ------------------------------------------------------------------------------------------------
+// PHASE 3: histories as a CORRESPONDENCE (Model/C08DocState.v: drv_run, extracted) - the same history is
+// run on a real DocumentState (directly) and through the JSON-RPC handlers of backend.rs, and every
+// generate_diagnostics / generate_code_actions answer is printed in the format the OCaml driver prints.
+// ------------------------------------------------------------------------------------------------
+/// one document of a history with what the REFERENCE says about it: the lints of a fresh linter on a fresh
+/// document, the context hash of each (fresh IgnoredLints), the spans of its Url tokens
+struct DocRef {
+    text: String,
+    doc: Document,
+    lints: Vec<Lint>,
+    keys: Vec<u64>,
+    /// (i, span): Document::get_token_at_char_index(i) is a Url token with that span (the function tabulated)
+    urls: Vec<(usize, Span)>,
+}
+
+#[derive(Clone, Debug)]
+enum HOp {
+    /// replace the document by text k
+    Doc(usize),
+    /// generate_diagnostics with severity variant 0..3 (Error, Warning, Information, Hint)
+    Diag(usize),
+    /// generate_code_actions(range, force_stable)
+    Act(Range, bool),
+    /// ignore_lint(lint j of document k) - against whatever document is current
+    Ign(usize, usize),
+}
+
+thread_local! { static URL_MISSED: std::cell::Cell<u64> = Default::default(); }
+const SEVERITIES: [DiagnosticSeverity; 4] = [DiagnosticSeverity::Error, DiagnosticSeverity::Warning, DiagnosticSeverity::Information, DiagnosticSeverity::Hint];
+const SEVERITY_NAMES: [&str; 4] = ["error", "warning", "information", "hint"];
+
+/// IgnoredLints::hash_lint_context, read off a fresh IgnoredLints (the hash function itself is private);
+/// reduced to 62 bits for the OCaml driver
+fn ctx_key(l: &Lint, doc: &Document) -> u64 {
+    let mut ig = IgnoredLints::new();
+    ig.ignore_lint(l, doc);
+    let v = serde_json::to_value(&ig).unwrap_or(Value::Null);
+    v["context_hashes"][0].as_u64().unwrap_or(0) >> 2
+}
+
+fn doc_ref(fe: &str, text: &str, dict: &Arc<FstDictionary>) -> Option<DocRef> {
+    guarded(|| {
+        let doc = frontends::make_document(fe, text, dict);
+        let mut fresh = new_state(dict);
+        fresh.document = frontends::make_document(fe, text, dict);
+        let lints = lints_like_state(&mut fresh);
+        let keys = lints.iter().map(|l| ctx_key(l, &doc)).collect();
+        let n = text.chars().count();
+        let urls: Vec<(usize, Span)> = (0..=n).filter_map(|i| doc.get_token_at_char_index(i).filter(|t| matches!(t.kind, TokenKind::Url)).map(|t| (i, t.span))).collect();
+        // how often the binary search of get_token_at_char_index misses a Url token that is there
+        for t in doc.get_tokens().iter().filter(|t| matches!(t.kind, TokenKind::Url)) {
+            if t.span.start < t.span.end && !urls.iter().any(|(i, _)| *i == t.span.start) {
+                URL_MISSED.with(|c| c.set(c.get() + 1));
+            }
+        }
+        DocRef { text: text.to_string(), doc, lints, keys, urls }
+    })
+    .ok()
+}
+
+/// tag of a lint = 1 + index of its message among the messages of the history's reference lints (0: unknown)
+fn tag_of(tags: &[String], msg: &str) -> usize {
+    tags.iter().position(|m| m == msg).map(|i| i + 1).unwrap_or(0)
+}
+
+fn fmt_sug(s: &Suggestion) -> String {
+    let (k, cs) = sug_parts(s);
+    format!("{k} {}", cps(&cs)).trim().to_string()
+}
+
+/// the case line `H | docs | foreign | ops` (format: ocaml/c08_main.ml)
+fn history_case_line(refs: &[DocRef], ops: &[HOp], tags: &[String]) -> String {
+    let docs: Vec<String> = refs
+        .iter()
+        .enumerate()
+        .map(|(k, d)| {
+            let lints: Vec<String> = d
+                .lints
+                .iter()
+                .zip(&d.keys)
+                .map(|(l, key)| {
+                    let mut x = format!("{} {} {} {} {} {}", l.span.start, l.span.end, l.priority, l.lint_kind.is_spelling() as u8, tag_of(tags, &l.message), key);
+                    for sg in &l.suggestions {
+                        x.push_str(" : ");
+                        x.push_str(&fmt_sug(sg));
+                    }
+                    x
+                })
+                .collect();
+            let urls: Vec<String> = d.urls.iter().map(|(i, u)| format!("{i} {} {}", u.start, u.end)).collect();
+            format!("{} , {} , {} , {}", k + 1, cps(&chars(&d.text)), lints.join(" / "), urls.join(" "))
+        })
+        .collect();
+    let mut foreign: Vec<String> = vec![];
+    let mut cur: Option<usize> = None;
+    let mut os: Vec<String> = vec![];
+    for o in ops {
+        match o {
+            HOp::Doc(k) => {
+                cur = Some(*k);
+                os.push(format!("D {}", k + 1));
+            }
+            HOp::Diag(sev) => os.push(format!("G {sev}")),
+            HOp::Act(r, fs) => os.push(format!("A {} {}", fmt_range(r), *fs as u8)),
+            HOp::Ign(k, j) => {
+                if let Some(c) = cur {
+                    if c != *k {
+                        let l = &refs[*k].lints[*j];
+                        foreign.push(format!("{} {} {} {} {} {}", c + 1, l.span.start, l.span.end, l.priority, tag_of(tags, &l.message), ctx_key(l, &refs[c].doc)));
+                    }
+                }
+                os.push(format!("I {} {}", k + 1, j));
+            }
+        }
+    }
+    format!("H | {} | {} | {}", docs.join(" ; "), foreign.join(" ; "), os.join(" ; "))
+}
+
+/// one code-action answer (as JSON: the wire format) in the driver's notation
+fn fmt_actions_json(acts: &Value, tags: &[String]) -> String {
+    let mut items: Vec<String> = vec![];
+    for a in acts.as_array().cloned().unwrap_or_default() {
+        if a.get("edit").is_some() || a.get("kind").is_some() {
+            // CodeAction: every TextEdit of its WorkspaceEdit
+            let mut n = 0;
+            if let Some(ch) = a["edit"]["changes"].as_object() {
+                for (_, es) in ch {
+                    for e in es.as_array().cloned().unwrap_or_default() {
+                        let r = &e["range"];
+                        items.push(format!(
+                            "E {} {} {} {} [{}]",
+                            r["start"]["line"], r["start"]["character"], r["end"]["line"], r["end"]["character"],
+                            cps(&chars(e["newText"].as_str().unwrap_or("\u{1}")))
+                        ));
+                        n += 1;
+                    }
+                }
+            }
+            if n != 1 {
+                items.push(format!("?code_action_with_{n}_edits"));
+            }
+            continue;
+        }
+        let args = a["arguments"].as_array().cloned().unwrap_or_default();
+        let word = |i: usize| cps(&chars(args.get(i).and_then(|x| x.as_str()).unwrap_or("\u{1}")));
+        match a["command"].as_str().unwrap_or("") {
+            "HarperIgnoreLint" => match serde_json::from_value::<Lint>(args.get(1).cloned().unwrap_or(Value::Null)) {
+                Ok(l) => items.push(format!("I {} {} {} {} {}", l.span.start, l.span.end, l.priority, tag_of(tags, &l.message), l.suggestions.len())),
+                Err(_) => items.push("?unreadable_lint".into()),
+            },
+            "HarperAddToUserDict" => items.push(format!("U [{}]", word(0))),
+            "HarperAddToFileDict" => items.push(format!("F [{}]", word(0))),
+            "HarperOpen" => items.push(format!("O [{}]", word(0))),
+            other => items.push(format!("?{other}")),
+        }
+    }
+    format!("A: {}", items.join(", ")).trim().to_string()
+}
+
+fn fmt_diags_json(diags: &Value, tags: &[String]) -> String {
+    let items: Vec<String> = diags
+        .as_array()
+        .cloned()
+        .unwrap_or_default()
+        .iter()
+        .map(|d| {
+            let r = &d["range"];
+            format!(
+                "{} {} {} {} {} {}",
+                r["start"]["line"], r["start"]["character"], r["end"]["line"], r["end"]["character"],
+                d["severity"].as_u64().unwrap_or(0),
+                tag_of(tags, d["message"].as_str().unwrap_or(""))
+            )
+        })
+        .collect();
+    format!("G: {}", items.join(", ")).trim().to_string()
+}
+
+/// the history on a real DocumentState, driven directly (what backend.rs does under its doc_state lock)
+fn run_history_direct(dict: &Arc<FstDictionary>, fe: &str, refs: &[DocRef], ops: &[HOp], tags: &[String]) -> Vec<String> {
+    let mut st = new_state(dict);
+    let mut out: Vec<String> = vec![];
+    for o in ops {
+        match o {
+            HOp::Doc(k) => {
+                if let Ok(d) = guarded(|| frontends::make_document(fe, &refs[*k].text, dict)) {
+                    st.document = d;
+                }
+            }
+            HOp::Diag(sev) => out.push(match guarded(|| st.generate_diagnostics(SEVERITIES[*sev])) {
+                Ok(d) => fmt_diags_json(&serde_json::to_value(&d).unwrap_or(Value::Null), tags),
+                Err(_) => "G: P".into(),
+            }),
+            HOp::Act(r, fs) => out.push(match guarded(|| st.generate_code_actions(*r, &CodeActionConfig { force_stable: *fs })) {
+                Ok(a) => fmt_actions_json(&serde_json::to_value(&a).unwrap_or(Value::Null), tags),
+                Err(_) => "A: P".into(),
+            }),
+            HOp::Ign(k, j) => {
+                let l = refs[*k].lints[*j].clone();
+                let _ = guarded(|| st.ignore_lint(&l));
+            }
+        }
+    }
+    out
+}
+
+fn request_value(s: &mut Session, method: &str, params: Value) -> Option<Value> {
+    let fut = s.start(method, params, true);
+    let slot: Arc<Mutex<Option<Value>>> = Arc::new(Mutex::new(None));
+    let slot2 = slot.clone();
+    let wrapped: HandlerFut = Box::pin(async move {
+        let r = fut.await;
+        if let Some(resp) = &r {
+            *slot2.lock().unwrap() = serde_json::to_value(resp).ok();
+        }
+        r
+    });
+    s.drive(wrapped);
+    let v = slot.lock().unwrap().take();
+    v.map(|v| v["result"].clone())
+}
+
+/// The same kind of history through the JSON-RPC handlers of backend.rs (didOpen / didChange publish
+/// diagnostics themselves, so every Doc is followed by a Diag of the configured severity, and so is every
+/// Ign: the HarperIgnoreLint command re-publishes).  The ignore command is sent with the arguments the server
+/// itself embedded in its last code-action answer for that lint when there is one (the JSON round trip of the
+/// embedded lint), otherwise with the reference lint serialised by the harness.
+/// Returns the impl line; oracle failures about the glue are reported here.
+#[allow(clippy::too_many_arguments)]
+fn run_history_rpc(rep: &mut Report, base: &str, lang: &str, sev: usize, force_stable: bool, refs: &[DocRef], ops: &[HOp], tags: &[String], inp: &Value) -> Vec<String> {
+    let _ = std::fs::remove_dir_all(base);
+    std::fs::create_dir_all(format!("{base}/fd")).unwrap();
+    let settings = lsclient::settings(
+        &format!("{base}/user.txt"),
+        &format!("{base}/fd"),
+        &format!("{base}/stats.txt"),
+        json!({"diagnosticSeverity": SEVERITY_NAMES[sev], "codeActions": {"ForceStable": force_stable}}),
+    );
+    let mut s = Session::new(settings);
+    let uri = "file:///c08/history.txt";
+    let mut out: Vec<String> = vec![];
+    let mut opened = false;
+    // the HarperIgnoreLint commands the server offered, by (document, lint JSON)
+    let mut offered: Vec<(usize, Value, Vec<Value>)> = vec![];
+    let mut cur = 0usize;
+    // an unknown url: the handler answers an empty list, and publishes nothing for it
+    match request_value(&mut s, "textDocument/codeAction", json!({"textDocument": {"uri": "file:///c08/never-opened.txt"}, "range": {"start": {"line": 0, "character": 0}, "end": {"line": 0, "character": 0}}, "context": {"diagnostics": []}})) {
+        Some(Value::Array(a)) if a.is_empty() => rep.monitor("checked:code_action for an unknown url answers []", 1),
+        other => fail(rep, "handler_unknown_url", format!("codeAction for a url that was never opened answered {other:?}"), inp.clone()),
+    }
+    let mut i = 0;
+    while i < ops.len() {
+        match &ops[i] {
+            HOp::Doc(k) => {
+                cur = *k;
+                let before = s.published.len();
+                let ok = if opened { s.did_change(uri, &refs[*k].text) } else { s.did_open(uri, lang, &refs[*k].text) };
+                opened = true;
+                if !ok || s.published.len() != before + 1 {
+                    fail(rep, "handler_publish_count", format!("didOpen/didChange published {} notifications (handler finished: {ok})", s.published.len() - before), inp.clone());
+                }
+                // the Diag that follows in `ops` is this publication
+                if let Some(d) = s.last_published(uri).cloned() {
+                    check_diag_glue(rep, &d, sev, inp);
+                    out.push(fmt_diags_json(&d, tags));
+                } else {
+                    out.push("G: ?nothing published".into());
+                }
+                i += 1; // skip the Diag
+            }
+            HOp::Diag(_) => { /* only as the companion of Doc / Ign */ }
+            HOp::Act(r, _) => {
+                let res = request_value(&mut s, "textDocument/codeAction", json!({"textDocument": {"uri": uri}, "range": r, "context": {"diagnostics": []}}));
+                match res {
+                    Some(v @ Value::Array(_)) => {
+                        for a in v.as_array().unwrap() {
+                            if a["command"].as_str() == Some("HarperIgnoreLint") {
+                                let args = a["arguments"].as_array().cloned().unwrap_or_default();
+                                if args.first().and_then(|u| u.as_str()) != Some(uri) {
+                                    fail(rep, "handler_ignore_url", format!("HarperIgnoreLint carries the url {:?}", args.first()), inp.clone());
+                                }
+                                if let Some(lj) = args.get(1) {
+                                    // hypothesis lint_json_roundtrip: the embedded JSON reads back as a Lint that
+                                    // serialises to the same JSON, and it is a reference lint of the current text
+                                    let back = serde_json::from_value::<Lint>(lj.clone()).ok().and_then(|l| serde_json::to_value(&l).ok());
+                                    if back.as_ref() == Some(lj) {
+                                        rep.monitor("checked:embedded lint JSON round trip (HarperIgnoreLint)", 1);
+                                    } else {
+                                        rep.monitor("violations:embedded lint JSON round trip", 1);
+                                        fail(rep, "hyp_lint_json_roundtrip", "the lint embedded in HarperIgnoreLint does not survive from_value / to_value".into(), inp.clone());
+                                    }
+                                    offered.push((cur, lj.clone(), args.clone()));
+                                }
+                            }
+                        }
+                        out.push(fmt_actions_json(&v, tags));
+                    }
+                    other => out.push(format!("A: ?{other:?}")),
+                }
+            }
+            HOp::Ign(k, j) => {
+                let want = serde_json::to_value(&refs[*k].lints[*j]).unwrap();
+                let args = match offered.iter().rev().find(|(d, lj, _)| d == k && *lj == want) {
+                    Some((_, _, args)) => {
+                        rep.count("rpc:ignore_with_the_server's_own_arguments");
+                        args.clone()
+                    }
+                    None => {
+                        rep.count("rpc:ignore_with_harness_serialised_lint");
+                        vec![json!(uri), want]
+                    }
+                };
+                let before = s.published.len();
+                let ok = s.command("HarperIgnoreLint", args);
+                if !ok || s.published.len() != before + 1 {
+                    fail(rep, "handler_publish_count", format!("HarperIgnoreLint published {} notifications (handler finished: {ok})", s.published.len() - before), inp.clone());
+                }
+                if let Some(d) = s.last_published(uri).cloned() {
+                    check_diag_glue(rep, &d, sev, inp);
+                    out.push(fmt_diags_json(&d, tags));
+                } else {
+                    out.push("G: ?nothing published".into());
+                }
+                i += 1; // skip the Diag
+            }
+        }
+        i += 1;
+    }
+    let _ = std::fs::remove_dir_all(base);
+    out
+}
+
+/// publish_diagnostics / lint_to_diagnostic glue that the line format does not show
+fn check_diag_glue(rep: &mut Report, diags: &Value, sev: usize, inp: &Value) {
+    for d in diags.as_array().cloned().unwrap_or_default() {
+        rep.monitor("checked:diagnostic severity/source as configured", 1);
+        if d["severity"].as_u64() != Some(sev as u64 + 1) || d["source"].as_str() != Some("Harper") {
+            fail(rep, "handler_diag_glue", format!("diagnostic with severity {} / source {} under diagnosticSeverity={}", d["severity"], d["source"], SEVERITY_NAMES[sev]), inp.clone());
+        }
+    }
+}
+
+
+fn ops_json(ops: &[HOp]) -> Value {
+    Value::Array(
+        ops.iter()
+            .map(|o| match o {
+                HOp::Doc(k) => json!(["D", k]),
+                HOp::Diag(s) => json!(["G", s]),
+                HOp::Act(r, fs) => json!(["A", r.start.line, r.start.character, r.end.line, r.end.character, fs]),
+                HOp::Ign(k, j) => json!(["I", k, j]),
+            })
+            .collect(),
+    )
+}
+fn ops_of_json(v: &Value) -> Option<Vec<HOp>> {
+    let n = |x: &Value| x.as_u64().unwrap_or(0) as usize;
+    let mut out = vec![];
+    for o in v.as_array()? {
+        out.push(match o[0].as_str()? {
+            "D" => HOp::Doc(n(&o[1])),
+            "G" => HOp::Diag(n(&o[1]).min(3)),
+            "A" => HOp::Act(Range { start: pos(n(&o[1]), n(&o[2])), end: pos(n(&o[3]), n(&o[4])) }, o[5].as_bool().unwrap_or(false)),
+            "I" => HOp::Ign(n(&o[1]), n(&o[2])),
+            _ => return None,
+        });
+    }
+    Some(out)
+}
+
+/// The property oracle over a history, on the implementation's answers alone (independent of the Coq model):
+/// a request whose start denotes a character of the CURRENT text must offer exactly the lints of the current
+/// text (reference linter) that contain that character and are not ignored; the diagnostics are one per
+/// visible lint of the current text.
+fn oracle_history(rep: &mut Report, refs: &[DocRef], ops: &[HOp], answers: &[String], tags: &[String], inp: &Value, how: &str) {
+    let mut cur: Option<usize> = None;
+    let mut ignored: Vec<u64> = vec![];
+    let mut ai = 0;
+    for (n, o) in ops.iter().enumerate() {
+        match o {
+            HOp::Doc(k) => cur = Some(*k),
+            HOp::Ign(k, j) => {
+                if let Some(c) = cur {
+                    let l = &refs[*k].lints[*j];
+                    ignored.push(if c == *k { refs[c].keys[*j] } else { ctx_key(l, &refs[c].doc) });
+                }
+            }
+            HOp::Diag(_) | HOp::Act(_, _) => {
+                let ans = answers.get(ai).cloned().unwrap_or_default();
+                ai += 1;
+                let Some(c) = cur else { continue };
+                let d = &refs[c];
+                let t = chars(&d.text);
+                if has_lone_cr(&t) {
+                    continue;
+                }
+                let visible: Vec<&Lint> = d.lints.iter().zip(&d.keys).filter(|(_, k)| !ignored.contains(k)).map(|(l, _)| l).collect();
+                let ign_item = |l: &Lint| format!("I {} {} {} {} {}", l.span.start, l.span.end, l.priority, tag_of(tags, &l.message), l.suggestions.len());
+                match o {
+                    HOp::Diag(_) => {
+                        let got = if ans == "G:" { 0 } else { ans.matches(", ").count() + 1 };
+                        if ans.starts_with("G: P") || ans.contains('?') || got != visible.len() {
+                            fail(rep, "diagnostics_not_lints", format!("operation {n} of the history ({how}): {got} diagnostics for {} visible lints of the current text: {ans}", visible.len()), inp.clone());
+                        }
+                    }
+                    HOp::Act(rg, _) => {
+                        let rc = RefClient::new(&d.text);
+                        let (Some(i), Some(j)) = (rc.resolve(rg.start), rc.resolve(rg.end)) else { continue };
+                        if i > j || inside_crlf(&t, i) {
+                            continue;
+                        }
+                        rep.count("hcorr_oracle:request_at_valid_position");
+                        let items: Vec<&str> = ans.trim_start_matches("A:").split(", ").map(|x| x.trim()).collect();
+                        for l in &visible {
+                            if l.span.start <= i && i < l.span.end && l.span.end <= t.len() {
+                                rep.count("hcorr_oracle:request_inside_a_visible_lint");
+                                if !items.contains(&ign_item(l).as_str()) {
+                                    fail(rep, "code_action_missing", format!("operation {n} of the history ({how}): code actions requested at {} inside the lint \"{}\" {:?} of the CURRENT text do not offer it: {ans}", fmt_range(rg), l.message, l.span), inp.clone());
+                                }
+                            }
+                        }
+                        for it in items.iter().filter(|x| x.starts_with("I ")) {
+                            let legit = visible.iter().any(|l| ign_item(l) == *it && l.span.start <= i && i < l.span.end);
+                            if !legit {
+                                fail(rep, "code_action_not_a_lint", format!("operation {n} of the history ({how}): code actions requested at {} offer \"{it}\" (start end priority tag suggestions), which is not a visible lint of the current text at that character", fmt_range(rg)), inp.clone());
+                            }
+                        }
+                    }
+                    _ => {}
+                }
+            }
+        }
+    }
+}
+
+/// Build the operations of a history over the given texts and run the correspondence (direct, and through
+/// JSON-RPC when `rpc_lang` is given).
+#[allow(clippy::too_many_arguments)]
+fn corr_history(rep: &mut Report, cx: &Ctx, r: &mut Rng, fe: &str, rpc_lang: Option<&str>, texts: &[String], whens: &[String], scratch: &str, forced_ops: Option<(Vec<HOp>, usize, bool)>) {
+    let dict = cx.dict.clone();
+    let mut refs: Vec<DocRef> = vec![];
+    for t in texts {
+        let Some(d) = doc_ref(fe, t, &dict) else {
+            rep.count("hcorr:front-end or lint panicked(C01's business)");
+            return;
+        };
+        refs.push(d);
+    }
+    let mut tags: Vec<String> = vec![];
+    for d in &refs {
+        for l in &d.lints {
+            if !tags.contains(&l.message) {
+                tags.push(l.message.clone());
+            }
+        }
+    }
+    let mut rpc_sev = r.below(4);
+    let mut rpc_fs = r.chance(1, 2);
+    let rpc = rpc_lang.is_some();
+    let ops: Vec<HOp> = match forced_ops {
+        Some((o, sev, fs)) => {
+            rpc_sev = sev.min(3);
+            rpc_fs = fs;
+            // a replayed operation list must fit the texts it is replayed on
+            let fits = o.iter().all(|x| match x {
+                HOp::Doc(k) => *k < refs.len(),
+                HOp::Ign(k, j) => *k < refs.len() && *j < refs[*k].lints.len(),
+                _ => true,
+            });
+            if !fits {
+                rep.count("hcorr:replayed operations do not fit the texts (skipped)");
+                return;
+            }
+            o
+        }
+        None => {
+            let mut ops = vec![];
+            for (k, d) in refs.iter().enumerate() {
+                let when = if rpc { "before" } else { whens.get(k).map(|s| s.as_str()).unwrap_or("before") };
+                ops.push(HOp::Doc(k));
+                if when == "before" {
+                    ops.push(HOp::Diag(if rpc { rpc_sev } else { r.below(4) }));
+                }
+                let rc = RefClient::new(&d.text);
+                let t = chars(&d.text);
+                let fs = |r: &mut Rng| if rpc { rpc_fs } else { r.chance(1, 3) };
+                // requests at characters of the new text's lints (cursor / selection), of the PREVIOUS text's lints
+                // (where stale lints would answer), and anywhere (also where no line is)
+                let mut reqs: Vec<Range> = vec![];
+                for l in d.lints.iter().take(6) {
+                    if l.span.start < l.span.end && l.span.end <= t.len() {
+                        let i = l.span.start + r.below(l.span.end - l.span.start);
+                        let p = rc.position_of_char(i);
+                        reqs.push(if r.chance(1, 3) { Range { start: p, end: rc.position_of_char(l.span.end) } } else { Range { start: p, end: p } });
+                    }
+                }
+                if k > 0 {
+                    let prev = &refs[k - 1];
+                    let prc = RefClient::new(&prev.text);
+                    for l in prev.lints.iter().take(3) {
+                        if l.span.start < l.span.end && l.span.end <= prev.text.chars().count() {
+                            let p = prc.position_of_char(l.span.start);
+                            reqs.push(Range { start: p, end: p });
+                        }
+                    }
+                }
+                let nl = t.iter().filter(|c| **c == '\n').count();
+                for _ in 0..2 {
+                    let p = pos(r.below(nl + 2), r.below(12));
+                    reqs.push(Range { start: p, end: p });
+                }
+                let mut url_starts: Vec<usize> = d.doc.get_tokens().iter().filter(|t| matches!(t.kind, TokenKind::Url)).map(|t| t.span.start).collect();
+                url_starts.truncate(2);
+                for u in url_starts {
+                    if u <= t.len() && !inside_crlf(&t, u) {
+                        let p = rc.position_of_char(u);
+                        reqs.push(Range { start: p, end: p });
+                    }
+                }
+                for rg in &reqs {
+                    ops.push(HOp::Act(*rg, fs(r)));
+                }
+                // now and then the user ignores a lint: one of this text, or (direct only) a stale one of the
+                // previous text while this text is current; then looks again
+                if !d.lints.is_empty() && r.chance(1, 2) {
+                    let j = r.below(d.lints.len());
+                    ops.push(HOp::Ign(k, j));
+                    ops.push(HOp::Diag(if rpc { rpc_sev } else { r.below(4) }));
+                    if let Some(rg) = reqs.first() {
+                        ops.push(HOp::Act(*rg, fs(r)));
+                    }
+                } else if k > 0 && !refs[k - 1].lints.is_empty() && r.chance(1, 3) {
+                    let j = r.below(refs[k - 1].lints.len());
+                    ops.push(HOp::Ign(k - 1, j));
+                    ops.push(HOp::Diag(if rpc { rpc_sev } else { r.below(4) }));
+                    if let Some(rg) = reqs.first() {
+                        ops.push(HOp::Act(*rg, fs(r)));
+                    }
+                }
+                if when == "after" {
+                    ops.push(HOp::Diag(r.below(4)));
+                }
+            }
+            ops
+        }
+    };
+    rep.eval();
+    let line = history_case_line(&refs, &ops, &tags);
+    let nl: usize = refs.iter().map(|d| d.lints.len()).sum();
+    if nl > 0 {
+        rep.nontrivial(&(5u8, rpc, fe.to_string(), texts.to_vec(), format!("{ops:?}")));
+    }
+    let inp = json!({"kind": "hcorr", "frontend": fe, "rpc_lang": rpc_lang, "texts": texts, "whens": whens, "ops": ops_json(&ops), "rpc_sev": rpc_sev, "rpc_fs": rpc_fs});
+    if let Some(lang) = rpc_lang {
+        rep.count("hcorr:history_through_JSON-RPC");
+        rep.count_n("hcorr:rpc_operations", ops.len() as u64);
+        let answers = run_history_rpc(rep, scratch, lang, rpc_sev, rpc_fs, &refs, &ops, &tags, &inp);
+        rep.case(&line, &answers.join(" ; "));
+        oracle_history(rep, &refs, &ops, &answers, &tags, &inp, "through the JSON-RPC handlers");
+    } else {
+        rep.count("hcorr:history_on_DocumentState");
+        rep.count_n("hcorr:direct_operations", ops.len() as u64);
+        let answers = run_history_direct(&dict, fe, &refs, &ops, &tags);
+        rep.case(&line, &answers.join(" ; "));
+        oracle_history(rep, &refs, &ops, &answers, &tags, &inp, "on a DocumentState");
+    }
+    for o in &ops {
+        rep.count(match o {
+            HOp::Doc(_) => "hcorr_op:set_document",
+            HOp::Diag(_) => "hcorr_op:generate_diagnostics",
+            HOp::Act(_, false) => "hcorr_op:generate_code_actions",
+            HOp::Act(_, true) => "hcorr_op:generate_code_actions(force_stable)",
+            HOp::Ign(_, _) => "hcorr_op:ignore_lint",
+        });
+    }
+}
+
+/// `x as u32` for usize x: the cast of index_to_position, against Model as_u32 (driver case T)
+fn check_casts(rep: &mut Report, r: &mut Rng, n: usize) {
+    let mut xs: Vec<u64> = vec![0, 1, u32::MAX as u64 - 1, u32::MAX as u64, u32::MAX as u64 + 1, u32::MAX as u64 + 2, (1u64 << 33) + 5, (1u64 << 62) - 1, 3 * (1u64 << 32)];
+    for _ in 0..n {
+        xs.push(r.next() >> (2 + r.below(40)));
+    }
+    for x in xs {
+        rep.eval();
+        rep.count(if x > u32::MAX as u64 { "cast:usize_above_u32(truncation branch)" } else { "cast:usize_within_u32" });
+        rep.case(&format!("T {x}"), &format!("{}", (x as usize) as u32));
+    }
+    // a line wider than 2^16 UTF-16 units and a text with more than 2^16 lines: far inside the u32 bound, the
+    // casts must be the identity there (a narrower cast is caught with these inputs)
+    let wide: Vec<char> = std::iter::repeat('a').take(66_000).chain("b😀 teh".chars()).collect();
+    let tall: Vec<char> = std::iter::repeat('\n').take(66_000).chain("ab teh".chars()).collect();
+    for (t, name) in [(&wide, "wide"), (&tall, "tall")] {
+        let text: String = t.iter().collect();
+        let rc = RefClient::new(&text);
+        let n = t.len();
+        for (a, b) in [(n - 3, n), (0, n), (65_535, 65_537), (n - 6, n - 4)] {
+            rep.eval();
+            rep.count(&format!("cast:span_beyond_2^16_{name}"));
+            let r = guarded(|| span_to_range(t, Span { start: a, end: b }));
+            match &r {
+                Ok(rg) => {
+                    rep.case(&format!("S {a} {b} | {}", cps(t)), &fmt_range(rg));
+                    if rc.resolve(rg.start) != Some(a) || rc.resolve(rg.end) != Some(b) {
+                        fail(rep, "range_wrong", format!("span [{a},{b}) of a text with a {name} shape (66 000 {}) became range {}, which an LSP client reads as {:?}..{:?}", if name == "wide" { "characters on one line" } else { "lines" }, fmt_range(rg), rc.resolve(rg.start), rc.resolve(rg.end)), json!({"kind": "casts"}));
+                    }
+                }
+                Err(_) => rep.case(&format!("S {a} {b} | {}", cps(t)), "P"),
+            }
+        }
+    }
+}
+
 fn replay_input(rep: &mut Report, cx: &mut Ctx, r: &mut Rng, v: &Value) {
     let t: Vec<char> = v["text"].as_str().unwrap_or("").chars().collect();
     match v["kind"].as_str() {
         Some("document") => check_document(rep, cx, r, v["frontend"].as_str().unwrap_or("plain"), v["text"].as_str().unwrap_or(""), usize::MAX),
         Some("history") => {
             let steps: Vec<Value> = v["steps"].as_array().cloned().unwrap_or_default();
-            check_history(rep, cx, r, v["frontend"].as_str().unwrap_or("plain"), &steps, usize::MAX)
+            check_history(rep, cx, r, v["frontend"].as_str().unwrap_or("plain"), &steps, usize::MAX);
+            // the same history as a model/implementation correspondence
+            let texts: Vec<String> = steps.iter().map(|s| s["text"].as_str().unwrap_or("").to_string()).collect();
+            let whens: Vec<String> = steps.iter().map(|s| s["diag"].as_str().unwrap_or("before").to_string()).collect();
+            let scratch = format!("/tmp/w-c08-{}", std::process::id());
+            corr_history(rep, cx, r, v["frontend"].as_str().unwrap_or("plain"), None, &texts, &whens, &scratch, None);
+        }
+        Some("casts") => check_casts(rep, r, 4),
+        Some("hcorr") => {
+            let strs = |x: &Value| -> Vec<String> { x.as_array().cloned().unwrap_or_default().iter().map(|s| s.as_str().unwrap_or("").to_string()).collect() };
+            let scratch = format!("/tmp/w-c08-{}", std::process::id());
+            // a replayed correspondence history runs both ways when it has an LSP language id
+            let fe = v["frontend"].as_str().unwrap_or("plain");
+            let forced = ops_of_json(&v["ops"]).map(|o| (o, v["rpc_sev"].as_u64().unwrap_or(3) as usize, v["rpc_fs"].as_bool().unwrap_or(false)));
+            match v["rpc_lang"].as_str() {
+                // the exact operations when the input carries them, else freshly generated ones
+                Some(lang) => corr_history(rep, cx, r, fe, Some(lang), &strs(&v["texts"]), &strs(&v["whens"]), &scratch, forced),
+                None => corr_history(rep, cx, r, fe, None, &strs(&v["texts"]), &strs(&v["whens"]), &scratch, forced),
+            }
         }
         kind => {
             // the exact case first (a long text is not swept exhaustively), then the whole text
@@ -781,6 +1418,8 @@ fn random_text(r: &mut Rng, max_pieces: usize) -> Vec<char> {
 }
 
 pub fn run(a: &Args, corpus: &[Value]) {
+    let rt = lsclient::runtime();
+    let _g = rt.enter();
     let mut rep = Report::new(&a.out);
     rep.rule = "texts: random concatenations of ASCII/tab/LF/CRLF/lone-CR/astral/combining/BMP-edge pieces (<= 12 pieces; all spans incl. out-of-text ones, the full position grid incl. non-existent lines and columns past the line end, all ordered pairs of valid positions on small texts, 1-3 suggestions per span through diagnostics::lint_to_code_actions); documents from every front-end through DocumentState with the curated LintGroup: every diagnostic range read by the reference client, code actions requested at every position inside every diagnostic range (sampled for spans longer than the bound), every returned TextEdit applied by the reference client. the UTF-16 width of single scalar values (every 251st + boundaries; thorough: all 1 112 063 except LF); the specification side (resolve_lsp / client_apply_lsp, lines ending at LF, CRLF or CR) against the reference client on every text incl. lone CR. thorough adds all texts of length <= 4 over {a, LF, astral, CR}. histories on one DocumentState: 2-5 texts derived from each other by edits that move / remove / add lints, the document replaced and code actions requested at every lint of the new text (lints by a fresh reference linter) with generate_diagnostics before, after or not at all. non-trivial = distinct (text, span) / (text, span, suggestion) / (text, range) / linted document / linted history step".into();
     let dict = FstDictionary::curated();
@@ -876,6 +1515,7 @@ pub fn run(a: &Args, corpus: &[Value]) {
     // histories on one DocumentState (update_document / generate_code_actions / generate_diagnostics in
     // every order the doc_state mutex admits)
     let hist_fes = ["plain", "plain", "markdown", "plain", "c:rust", "c:python", "lhaskell", "gitcommit", "html", "typst"];
+    let scratch = format!("/tmp/w-c08-{}", std::process::id());
     for h in 0..a.scale(40, 500) {
         let fe = hist_fes[h % hist_fes.len()];
         let mut cur = match h % 4 {
@@ -892,7 +1532,30 @@ pub fn run(a: &Args, corpus: &[Value]) {
             continue;
         }
         check_history(&mut rep, &mut cx, &mut r, fe, &steps, a.scale(3, 12));
+        // the same history as a model/implementation correspondence on a DocumentState driven directly
+        let texts: Vec<String> = steps.iter().map(|s| s["text"].as_str().unwrap().to_string()).collect();
+        let whens: Vec<String> = steps.iter().map(|s| s["diag"].as_str().unwrap().to_string()).collect();
+        corr_history(&mut rep, &cx, &mut r, fe, None, &texts, &whens, &scratch, None);
     }
+    // histories through the JSON-RPC handlers (code_action, publish_diagnostics, HarperIgnoreLint)
+    for h in 0..a.scale(14, 160) {
+        let (fe, lang) = *r.pick(&[("plain", "plaintext"), ("plain", "plaintext"), ("markdown", "markdown"), ("plain", "mail")]);
+        let mut cur = match h % 3 {
+            0 => "This is teh first line.\nAnd teh second 😀 recieve at https://example.com/x now.".to_string(),
+            _ => format!("{} teh 𝒜 recieve", frontends::embed(fe, &mut r)),
+        };
+        let mut texts = vec![cur.clone()];
+        for _ in 0..r.range(1, 3) {
+            cur = next_text(&mut r, fe, &cur);
+            texts.push(cur.clone());
+        }
+        if texts.iter().any(|t| t.chars().count() > 400 || has_lone_cr(&chars(t))) {
+            continue;
+        }
+        corr_history(&mut rep, &cx, &mut r, fe, Some(lang), &texts, &[], &scratch, None);
+    }
+    check_casts(&mut rep, &mut r, a.scale(200, 20000));
+    rep.count_n("hcorr:Url token not found by get_token_at_char_index at its own start(not C08's property; tabulated, not modelled)", URL_MISSED.with(|c| c.get()));
     rep.finish();
 }
 
